@@ -180,7 +180,7 @@ Definition dump_segs (s : stack) (f : fld) : option (list seg) :=
 
 Lemma flat_prim_segs p d sg : prim_segs p d = Some sg -> dump_prim p d = Some (flat sg).
 Proof.
-  destruct p as [m t|n tc m tv|n t]; destruct d as [len data|v|]; cbn [prim_segs dump_prim]; try discriminate.
+  destruct p as [m t|n tc m tv|n t|n tc m tv]; destruct d as [len data|v|]; cbn [prim_segs dump_prim]; try discriminate.
   - destruct (float_width t) as [w|]; [|discriminate]. intros E. apply Some_inj in E. subst sg.
     rewrite !flat_app, flat_hdr, flat_ftr. unfold flat. cbn [flat_map seg_bytes]. now rewrite !app_nil_r, <- !app_assoc.
   - intros E. apply Some_inj in E. subst sg. rewrite !flat_app, flat_hdr, flat_ftr. unfold flat. cbn [flat_map seg_bytes]. now rewrite !app_nil_r.
@@ -215,7 +215,7 @@ Proof.
   assert (H : forall ls p gs d b, dump_layers ls p gs d = Some b -> exists sg, layers_segs ls p gs d = Some sg).
   { induction ls as [|l ls IH]; intros p gs d b E.
     - cbn [dump_layers layers_segs] in *.
-      destruct p as [m t|n tc m tv|n t]; destruct d as [len data|v|]; cbn [prim_segs dump_prim] in *; try discriminate; eauto.
+      destruct p as [m t|n tc m tv|n t|n tc m tv]; destruct d as [len data|v|]; cbn [prim_segs dump_prim] in *; try discriminate; eauto.
       destruct (float_width t); [eauto|discriminate].
     - destruct gs as [|g gs]; [discriminate|]. cbn [dump_layers layers_segs] in *.
       destruct (kind_of_layers ls p) as [k|]; [|discriminate].
@@ -264,7 +264,7 @@ Section Flip.
   Lemma rej_load_prim p d sg : wf_prim p d = true -> prim_segs p d = Some sg -> rej (load_prim ops p) sg.
   Proof.
     destruct tags_ok as [_ [Ta [Tc [Ti _]]]].
-    destruct p as [m t|n tc m tv|n t]; destruct d as [len data|v|]; cbn [wf_prim prim_segs]; try discriminate.
+    destruct p as [m t|n tc m tv|n t|n tc m tv]; destruct d as [len data|v|]; cbn [wf_prim prim_segs]; try discriminate.
     - intros W E. repeat (apply andb_prop in W; destruct W as [W ?]).
       destruct (all_in_spec _ _ _ H) as [Hl Hr].
       assert (Hw : exists w, float_width t = Some w /\ (w = 4 /\ t = F32 \/ w = 8 /\ t = F64)).
